@@ -172,7 +172,8 @@ CmdRet == /\ E.ev = "cmd_ret"
                            \* the caller's own deadline (time-out + 1 s): the writer did not complete the request in time,
                            \* e.g. it is still queued behind a writer that is stuck writing to a terminal that stopped reading
                            \* ... but not long after the writer stopped: the stopping writer answers what is outstanding or queued at once
-                           \/ (E.kind = "timeout" /\ E.ms >= issued[E.k].tmo + CallerGrace - 20 /\ E.ms <= issued[E.k].tmo + CallerGrace + 500
+                           \/ (E.kind = "timeout" /\ issued[E.k].tmo >= 0      \* (a caller without a time-out is never told "time-out")
+                                /\ E.ms >= issued[E.k].tmo + CallerGrace - 20 /\ E.ms <= issued[E.k].tmo + CallerGrace + 500
                                 /\ (stopping < 0 \/ E.tms - stopping <= 200)
                                 \* ... and for a request that was written only when the harness may have parked the writer (slack >= grace):
                                 \* an unhindered writer delivers the time-out itself, on time
@@ -184,7 +185,7 @@ CmdRet == /\ E.ev = "cmd_ret"
                   IF r.kind # E.kind THEN Fail("ReturnKind")
                   ELSE IF E.kind = "resp" /\ r.echo # -1 /\ ~(E.echo = written[E.k] /\ r.echo = written[E.k]) THEN Fail("OwnResponse")
                   ELSE IF E.kind = "resp" /\ r.echo = -1 /\ E.respid # 4099 THEN Fail("OwnResponse")      \* only 0x1003 may be matched without an echo
-                  ELSE IF E.kind = "timeout" /\ ~(E.ms >= issued[E.k].tmo - 20 /\ E.ms <= issued[E.k].tmo + issued[E.k].slack) THEN Fail("TimeoutTiming")
+                  ELSE IF E.kind = "timeout" /\ ~(issued[E.k].tmo >= 0 /\ E.ms >= issued[E.k].tmo - 20 /\ E.ms <= issued[E.k].tmo + issued[E.k].slack) THEN Fail("TimeoutTiming")
                   ELSE /\ returned' = returned \cup {E.k} /\ Ok
                        /\ UNCHANGED <<filt, rr, x, nmsg, hdr, toReport, toWriter, cur, pend, cbQ, wireQ, pser, issued, written, outstanding, matched, expectRet, activeCb, stopping>>
 \* the writer saw stopChan closed: from now on it answers outstanding and queued commands with an error
